@@ -66,6 +66,11 @@ pub struct State {
     pub map_refusals: usize,
     /// optional address-hint substitution for mmap(0, ..) calls: consumed front to back
     pub mmap_hints: Vec<usize>,
+    /// placement steering for mmap(0, ..) calls, consumed front to back: 1 = hint directly
+    /// above the most recent successful anonymous mapping, 2 = directly below it, other = none
+    /// (a hint without MAP_FIXED is only a preference: any placement is legal kernel behaviour)
+    pub mmap_hint_modes: Vec<u8>,
+    pub last_map: (usize, usize),
 }
 
 thread_local! {
@@ -145,7 +150,10 @@ pub fn plan(rules: Vec<Rule>) {
 
 pub fn clear_plan() {
     plan(Vec::new());
-    with_state(|s| s.mmap_hints.clear());
+    with_state(|s| {
+        s.mmap_hints.clear();
+        s.mmap_hint_modes.clear();
+    });
 }
 
 pub fn forced_count() -> usize {
@@ -158,6 +166,13 @@ pub fn map_refusals() -> usize {
 
 pub fn set_mmap_hints(h: Vec<usize>) {
     with_state(|s| s.mmap_hints = h);
+}
+
+pub fn set_mmap_hint_modes(h: Vec<u8>) {
+    with_state(|s| {
+        s.mmap_hint_modes = h;
+        s.last_map = (0, 0);
+    });
 }
 
 #[inline]
@@ -252,6 +267,17 @@ unsafe fn dispatch_slow(st: &mut State, n: usize, mut args: [usize; 6], nargs: u
             args[0] = h;
         }
     }
+    if n == nr::MMAP && args[0] == 0 && !st.mmap_hint_modes.is_empty() {
+        let m = st.mmap_hint_modes.remove(0);
+        let (la, ll) = st.last_map;
+        if la != 0 {
+            if m == 1 {
+                args[0] = la + ll;
+            } else if m == 2 && la > args[1] {
+                args[0] = la - args[1];
+            }
+        }
+    }
     let (ret, executed) = match action {
         Action::ForceRet(v) => {
             st.forced_count += 1;
@@ -281,6 +307,9 @@ unsafe fn dispatch_slow(st: &mut State, n: usize, mut args: [usize; 6], nargs: u
     };
     if executed {
         account(n, &args, ret);
+        if n == nr::MMAP && !is_err(ret) {
+            st.last_map = (ret, args[1]);
+        }
     }
     if (n == nr::MMAP || n == nr::MREMAP) && is_err(ret) {
         st.map_refusals += 1;
